@@ -88,6 +88,10 @@ def cases(seed, tier):
     npts = rng.choice([1, 2, 3, 5])
     for p in range(npts):
         body.append(msg(S, "checkpoint"))
+        if p and rng.random() < 0.35:
+            # a device of the stream is re-configured between two readings: the stream gets a second descriptor,
+            # the external detector's frames go on counting
+            body.append(msg(S, "configure", "det0", exposure=float(p + 1)))
         devs = [d for d in ads if rng.random() < 0.85] or ads[:1]
         if rng.random() < 0.8:
             devs = devs + ["det0"]
@@ -368,6 +372,8 @@ def check(res):
             elif c["name"] == "datum_page" and "frame" in (c["input"].get("datum_kwargs") or {}):
                 framed.update(c["input"]["datum_id"])
         last_stop = {}
+        # a stream keeps its name when it gets a new descriptor (a device of it was re-configured)
+        stream_of = {c["input"]["uid"]: c["input"].get("name") for c in calls if c["name"] == "descriptor"}
         in_order = not case.get("delay_datums")  # delayed datums are converted at stop, in cache order
         stopped = any(c["name"] == "stop" for c in calls)
         for ev in in_events:
@@ -392,8 +398,9 @@ def check(res):
                         # event's seq_num: require a non-empty range, seq_nums = indices + 1, and contiguity with the
                         # previous stream datum of the same (stream, key)
                         i0, i1 = sd["indices"]["start"], sd["indices"]["stop"]
-                        prev = last_stop.get((ev["descriptor"], key), 0)
-                        last_stop[(ev["descriptor"], key)] = i1
+                        skey = (stream_of.get(ev["descriptor"], ev["descriptor"]), key)
+                        prev = last_stop.get(skey, 0)
+                        last_stop[skey] = i1
                         if not (i1 > i0 and sd["seq_nums"] == {"start": i0 + 1, "stop": i1 + 1} and (i0 == prev or not in_order)):
                             out.append(V("stream-datum-range-mismatch", f"run {ri}: framed datum of event seq {s} ({key}) became indices {sd['indices']} seq_nums {sd['seq_nums']} (previous stop {prev})"))
                     elif sd["seq_nums"] != {"start": s, "stop": s + 1} or sd["indices"]["stop"] - sd["indices"]["start"] != 1:
